@@ -144,6 +144,28 @@ pub fn c01_witness_valid() {
     cover!(k == 323, "the best flush");
 }
 
+/// HISTORY on the PRODUCT path of the REAL evaluator: a hand with a repeated rank ranked after another such hand
+/// gives its own ordinal — no memo, hint or truncated key between `multiply_primes`, `find_in_products`,
+/// `not_unique` and the PRODUCTS / VALUES tables.  Both hands in descending slot order (the order-freedom of the
+/// folds is c01_folds_swap); this is also the evidence behind the S5 assumption "the five-card evaluator is a
+/// function of the card set" used by the six/seven-card harnesses (C02, C03, C08, C09).
+#[cfg_attr(kani, kani::proof)]
+#[cfg_attr(kani, kani::unwind(14))]
+#[cfg_attr(kani, kani::solver(kissat))]
+pub fn c01_five_history_paired() {
+    let (w0, r0, _s0) = any_five();
+    let (w1, r1, _s1) = any_five();
+    sym::assume(w0[0] > w0[1] && w0[1] > w0[2] && w0[2] > w0[3] && w0[3] > w0[4]);
+    sym::assume(w1[0] > w1[1] && w1[1] > w1[2] && w1[2] > w1[3] && w1[3] > w1[4]);
+    sym::assume(r0[0] == r0[1] || r0[1] == r0[2] || r0[2] == r0[3] || r0[3] == r0[4]);
+    sym::assume(r1[0] == r1[1] || r1[1] == r1[2] || r1[2] == r1[3] || r1[3] == r1[4]);
+    let _ = Five::from(w0).hand_rank_value();
+    let v1 = Five::from(w1).hand_rank_value();
+    check!(v1 == ord::ord(ranks_u8(r1), false), "value of a paired hand ranked after another paired hand is its own ordinal");
+    cover!(!sym::same(w0, w1) && r0[0] != r1[0], "two different paired hands");
+    cover!(sym::same(w0, w1), "the same hand twice");
+}
+
 /// HISTORY on the REAL evaluator: ranking a five-card hand after another one has been ranked gives the hand's own
 /// ordinal (no hidden state in the five-card path).  Both hands range over the table path (five distinct ranks,
 /// flush or not), any slot order.
